@@ -56,6 +56,7 @@ Inductive step :=
 | StTrigger (id target : N)
 | StSorted (id target : N)
 | StDrop (id : N)
+| StDropCol (id : N)
 | StSeed (r : crec)                 (* a crafted commit applied through Replay *)
 | StSeedDense (b : N) (cs : list (N * list op)) (cnt : N)   (* the same, with every offset of block b inserted *)
 | StTxn (body : list stmt) (commitp : bool) (o : obs)
@@ -160,6 +161,7 @@ Definition do_step (cs : cstate) (st : step) : cstate * list (N * N) :=
   | StTrigger id tg => (keep (create_computed s id tg (XTrigger [])), [])
   | StSorted id tg => (keep (create_computed s id tg (XSorted ∅)), [])
   | StDrop id => (keep (drop_computed s id), [])
+  | StDropCol id => (keep (drop_column s id), [])
   | StSeed r => (keep (replay s r), [])
   | StSeedDense b cols cnt =>
       (* 16384 insert markers are generated here rather than written out; the rows of the seeded
